@@ -61,6 +61,22 @@ func (x *Exec) lockOp(b *bctx, mode string, acquire bool) {
 	}
 }
 
+func (e *Engine) guardWritesOnly(x *Exec, key string) bool {
+	for _, g := range e.cs.Guards {
+		if !g.WritesOnly {
+			continue
+		}
+		tn := e.pkgByShort(g.Pkg).Scope().Lookup(g.Type)
+		if tn == nil {
+			continue
+		}
+		if si := x.so.structOf(tn.Type()); si != nil && key == "F:"+si.Sort+"."+g.Field {
+			return true
+		}
+	}
+	return false
+}
+
 func (e *Engine) guardOf(x *Exec, key string) string {
 	for _, g := range e.cs.Guards {
 		tn := e.pkgByShort(g.Pkg).Scope().Lookup(g.Type)
@@ -86,6 +102,9 @@ func (x *Exec) lockCheck(st *State, l *Loc, write bool, reach Term, pos token.Po
 	}
 	g := x.eng.guardOf(x, l.Key)
 	if g == "" {
+		return
+	}
+	if !write && x.eng.guardWritesOnly(x, l.Key) {
 		return
 	}
 	x.heapBase(heldKey, heldSort)
